@@ -406,7 +406,7 @@ fn preprocess_text(plan: &hb_ot_shape_plan_t, face: &hb_font_t, buffer: &mut hb_
             // Move Nikhahit (end-2) to the beginning
             buffer.merge_out_clusters(start, end);
             let t = buffer.out_info()[end - 2];
-            for i in 0..(end - start - 2) {
+            for i in (0..(end - start - 2)).rev() {
                 buffer.out_info_mut()[i + start + 1] = buffer.out_info()[i + start];
             }
             buffer.out_info_mut()[start] = t;
